@@ -284,6 +284,19 @@ class EvalMixin:
         return self.ev(e.value, st, lambda st1, base: self.attr_load(st1, base, e.attr, e, k))
 
     def attr_load(self, st, base, attr, node, k):
+        if base.meta and base.meta[0] == "super":
+            _, me, cls = base.meta
+            mro = list(type.mro(me_cls)) if (me_cls := self.static_class_of(me)) else list(cls.__mro__)
+            after = mro[mro.index(cls) + 1 :] if cls in mro else list(cls.__mro__)[1:]
+            for c in after:
+                if attr in vars(c):
+                    obj = vars(c)[attr]
+                    if not hasattr(obj, "__code__"):
+                        if attr == "__init__" and issubclass(c, BaseException):
+                            return k(st, SV(smt.fresh("bm"), "func", ("excinit", me)))
+                        raise Unsupported(f"super().{attr} resolves to a builtin")
+                    return k(st, SV(smt.fresh("bm"), "func", ("method", obj, me, c)))
+            raise Unsupported(f"super().{attr} not found")
         if base.meta and base.meta[0] in ("module", "class"):
             try:
                 obj = getattr(base.meta[1], attr)
@@ -318,6 +331,11 @@ class EvalMixin:
             return k(st1, self.load_field(st1, base.t, attr))
 
         return self.non_none(st, base, node, go)
+
+    def static_class_of(self, sv):
+        if sv.ty and sv.ty.startswith("obj:"):
+            return self.resolve_class_name(sv.ty[4:])
+        return None
 
     def is_instance_field(self, cls, attr):
         key = ("ifields", cls)
